@@ -281,6 +281,15 @@ class ISISGrammar(PVLGrammar):
     group_keywords = {"GROUP": "END_GROUP"}
     object_pref_keywords = ("Object", "End_Object")
     object_keywords = {"OBJECT": "END_OBJECT"}
+    # These are derived from the two tables above, so they must
+    # be derived again (otherwise BEGIN_GROUP and BEGIN_OBJECT are
+    # still taken for block keywords that then match nothing).
+    aggregation_keywords = dict()
+    aggregation_keywords.update(group_keywords)
+    aggregation_keywords.update(object_keywords)
+    reserved_keywords = set(PVLGrammar.end_statements)
+    for p in aggregation_keywords.items():
+        reserved_keywords |= set(p)
 
     # A single-line comment that starts with the octothorpe (#) is not part
     # of PVL or ODL, but it is used when ISIS writes out comments.
